@@ -485,6 +485,21 @@ func (eng *Engine) shapeObligations(tag string) []*Obligation {
 			mk("*", "no such struct type")
 			continue
 		}
+		// the reflection-based codec is what the shape obligations describe: a
+		// hand-written marshaller on the type replaces it wholesale
+		if sp := eng.spkgs[p.Type[:i]]; sp != nil {
+			if obj := sp.Pkg.Scope().Lookup(p.Type[i+1:]); obj != nil {
+				ms := types.NewMethodSet(types.NewPointer(obj.Type()))
+				problem := ""
+				if ms.Lookup(sp.Pkg, "MarshalJSON") != nil {
+					problem = "the type has its own MarshalJSON: the keys it writes are not the ones the struct tags (and UnmarshalJSON) read"
+				}
+				if ms.Lookup(sp.Pkg, "UnmarshalJSON") != nil && eng.specs.Funcs["(*"+p.Type+").UnmarshalJSON"] == nil {
+					problem = "the type has its own UnmarshalJSON and no contract describes it"
+				}
+				mk("(codec)", problem)
+			}
+		}
 		keys := map[string]int{}
 		keyOf := func(f *types.Var, tag string) string {
 			k := strings.Split(reflectTag(tag, "json"), ",")[0]
